@@ -289,8 +289,47 @@ func cfgIndex(cf limitCfg) int {
 	return 0
 }
 
+// c04BigRows are large valid encodings (a polygon of two rings of 100,000 points, a
+// multilinestring and a multipolygon of that size) that one case in 400 decodes
+// before its own input, the way one large row precedes small ones in a table: what
+// a decode allocates is bounded by ITS input, whatever was decoded before.
+var c04BigRows [][]byte
+
+func c04BigRowFirst(c *fw.Ctx) {
+	if c04BigRows == nil {
+		ring := func(n int, off float64) [][]float64 {
+			out := make([][]float64, n)
+			for i := range out {
+				out[i] = []float64{off + float64(i%1000), off + float64(i/1000)}
+			}
+			out[n-1] = append([]float64{}, out[0]...)
+			return out
+		}
+		for _, g := range []*model.G{
+			{Kind: model.Polygon, Layout: geom.XY, C2: [][][]float64{ring(100000, 0), ring(100000, 5000)}},
+			{Kind: model.MultiLineString, Layout: geom.XY, C2: [][][]float64{ring(100000, 0), ring(50000, 7)}},
+			{Kind: model.MultiPolygon, Layout: geom.XY, C3: [][][][]float64{{ring(100000, 0)}, {ring(60000, 9), ring(30000, 11)}}},
+		} {
+			for _, o := range []ref.WKBOpts{{}, {EWKB: true}} {
+				if b, _, err := ref.WriteWKB(g, o); err == nil {
+					c04BigRows = append(c04BigRows, b)
+				}
+			}
+		}
+	}
+	saved := wkbcommon.MaxGeometryElements
+	wkbcommon.MaxGeometryElements = [4]int{-1, -1, -1, -1}
+	defer func() { wkbcommon.MaxGeometryElements = saved; _ = recover() }()
+	k := c.R.Intn(len(c04BigRows))
+	_, _ = wkbMode{"", ref.WKBOpts{EWKB: k%2 == 1}}.unmarshal(c04BigRows[k])
+	c.Count("large_valid_row_decoded_first")
+}
+
 func c04Mutations(c *fw.Ctx, idx int) {
 	r := c.R
+	if r.Chance(1, 400) {
+		c04BigRowFirst(c)
+	}
 	m := wkbModes[r.Intn(len(wkbModes))]
 	cfg := c04Configs[r.Intn(len(c04Configs))]
 	base, fields, g := c04Base(r, m)
